@@ -38,6 +38,8 @@ func init() {
 			"Histories (a quarter of the container-holding JSON texts and of the values): a text is loaded twice, the containers of the first result -- at every depth, the empty ones first -- are changed IN PLACE through append!, stable-sort, assoc! (new / existing name) and dissoc! (existing / absent name), optionally after a dump; " +
 			"the changed value must be the text's tree with exactly those changes, the result loaded earlier, a load afterwards in the same runtime, one in a second runtime of the process and libjson.LoadWith must all still be the text's tree, the two loads equal?, the dump of the changed value must read back to it; " +
 			"the first value a case loads is kept and re-compared with its tree after every later document of the case; a value is compared with a fresh twin before and after its dumps, bytes an earlier dump returned are grown in place (append-bytes!) or followed by dumps of other values, and the value is changed in place and dumped again (against the changed model and a freshly built twin). " +
+			"Size: a quarter of the document batches get one more document, valid or with one named near-miss mutation, in which one place the mutation left alone (whitespace gap before/inside/after the value, string, member name, number literal, array, object) is made long " +
+			"so that the defect, the end of the long place, the end of the value or the end of the document sits at a buffer boundary (2^6..2^16, 512*(2^k-1)) +-3 bytes (sometimes +-4..40); loaded in all four flag combinations by load-string/load-bytes and by libjson.Load/LoadWith. " +
 			"A case class is distinct by (shape, build route, key kinds, mode, leaf classes) for values and by (origin, mutation name or number/string classes, verdict, nesting bucket) for documents; " +
 			"empty or scalar-free cases are not counted.",
 		Assumptions: []string{
@@ -92,6 +94,11 @@ func c13Run(w *fw.W, idx int) {
 	}
 	for k := 0; k < c13DocsPerCase; k++ {
 		c13RunDocCase(w, c, w.RNG(idx, fmt.Sprintf("doc%d", k)))
+	}
+	// the size dimension (c13_size.go); an own PRNG stream, so the batch above
+	// is what it was
+	if rs := w.RNG(idx, "sized"); rs.Intn(c13SizedEvery) == 0 {
+		c13RunSizedDoc(w, c, rs)
 	}
 }
 
